@@ -316,6 +316,17 @@ def run_array(c):
             elif tk == "raw":
                 with open(path, "wb") as f:
                     joblib.dump(obj, f, compress=form, protocol=c.get("proto"))
+            elif tk in ("zlibfile", "gzipfile"):
+                # joblib's own file object handed DIRECTLY to dump as the target (NumpyPickler.buffered is true,
+                # allow_mmap false); compress=0: the file object does the compression
+                from joblib import compressor as jc
+                cls = jc.BinaryZlibFile if tk == "zlibfile" else jc.BinaryGzipFile
+                fz = cls(path, "wb", compresslevel=3)
+                try:
+                    joblib.dump(obj, fz, compress=0, protocol=c.get("proto"))
+                    out["target_closed_by_dump"] = fz.closed
+                finally:
+                    fz.close()
             else:
                 bio = io.BytesIO()
                 joblib.dump(obj, bio, compress=form, protocol=c.get("proto"))
@@ -359,6 +370,13 @@ def run_array(c):
                 elif c.get("load_via") == "fileobj":
                     with open(path, "rb") as f:
                         back = joblib.load(f, mmap_mode=mm, ensure_native_byte_order=enb)
+                elif c.get("load_via") == "jfile" and tk in ("zlibfile", "gzipfile"):
+                    from joblib import compressor as jc
+                    fz = (jc.BinaryZlibFile if tk == "zlibfile" else jc.BinaryGzipFile)(path, "rb")
+                    try:
+                        back = joblib.load(fz, mmap_mode=mm, ensure_native_byte_order=enb)
+                    finally:
+                        fz.close()
                 else:
                     back = joblib.load(path, mmap_mode=mm, ensure_native_byte_order=enb)
             out["warnings"] = sorted(set(type(w.message).__name__ for w in ws))
@@ -662,6 +680,25 @@ def run_loky_loop(c):
     dt = mk_dtype(c["dtype"])
     shape = tuple(c["shape"])
     rows, addr_reused, seen = [], 0, set()
+    if c.get("unmanaged"):
+        # ONE Parallel object called several times OUTSIDE a with block, ONE array object mutated in place between
+        # the calls (same id, same temporary file name), several tasks per worker per call
+        try:
+            parallel = Parallel(n_jobs=2, max_nbytes=c["max_nbytes"], backend=c.get("backend", "loky"), timeout=120)
+            x = np.zeros(shape, dtype=dt)
+            if c.get("order") == "F":
+                x = np.asfortranarray(x)
+            for it in range(c["iterations"]):
+                x[...] = (np.arange(int(np.prod(shape))).reshape(shape) % 7 + 7 * it).astype(dt) if c["fill"] == "arange" \
+                    else np.full(shape, 7 * it).astype(dt)
+                want = {"digest": digest(x), "first": repr(x.flat[0]), "last": repr(x.flat[-1])}
+                got = parallel(delayed(_summary)(x) for _ in range(c.get("tasks", 6)))
+                rows.append({"it": it, "want": want, "got": got})
+                del got
+                gc.collect()
+        except Exception as e:  # noqa
+            return {"rows": rows, "parallel_raise": "%s: %s" % (type(e).__name__, str(e)[:160])}
+        return {"rows": rows, "addresses_reused": 0}
     try:
         with Parallel(n_jobs=2, max_nbytes=c["max_nbytes"], backend=c.get("backend", "loky"), timeout=120) as parallel:
             for it in range(c["iterations"]):
